@@ -96,7 +96,7 @@ func c15WriteGslb(dir string, ver int, addr string, port int) error {
 }
 
 func c15(r *vkit.Run) {
-	r.SetRule("full in-process BFE (HTTP + HTTPS) serving keep-alive HTTP/1 and HTTPS clients while 5 reloader goroutines install versioned server-data (host/route/cluster_conf) and gslb/cluster-table configurations (two of them reloading the same family concurrently) and reload TLS rules/certs and the session-ticket key; every name embeds its version; harness filters at 5 callback points log product, cluster, SvrDataConf pointer, sub-cluster and backend per request; offline check: one version per family per request, same snapshot pointer at all request-phase points; race detector scoped to reports with a reload frame; bfe panic counters must stay 0. Non-trivial = request processed while the installed version changed since the previous request of that client; distinct = (server-data version, gslb version) pair observed")
+	r.SetRule("full in-process BFE (HTTP + HTTPS) serving keep-alive HTTP/1, HTTPS and HTTP/2 clients while 5 reloader goroutines install versioned server-data (host/route/cluster_conf) and gslb/cluster-table configurations (two of them reloading the same family concurrently) and reload TLS rules/certs and the session-ticket key; every name embeds its version; harness filters at 5 callback points log product, cluster, SvrDataConf pointer, sub-cluster and backend per request; offline check: one version per family per request, same snapshot pointer at all request-phase points; race detector scoped to reports with a reload frame; bfe panic counters must stay 0. Non-trivial = request processed while the installed version changed since the previous request of that client; distinct = (server-data version, gslb version) pair observed")
 	r.RaceScope("ConfReload", "SessionTicketKeyReload", "tlsConfLoad", "BalTableReload", "setTransports")
 	bs := e2e.NewBackendSet()
 	defer bs.Close()
@@ -122,7 +122,7 @@ func c15(r *vkit.Run) {
 	}
 	rd := func(p string) string { b, _ := os.ReadFile(filepath.Join(vdir, p)); return string(b) }
 	srv, err := e2e.Start(&e2e.Options{HTTPS: true, SessionTickets: true,
-		TLSRule: `{"Version":"1","DefaultNextProtos":["http/1.1"],"Config":{}}`,
+		TLSRule: `{"Version":"1","DefaultNextProtos":["h2","http/1.1"],"Config":{}}`,
 		Files: map[string]string{
 			"server_data_conf/host_rule.data":    rd("sd1/host_rule.data"),
 			"server_data_conf/route_rule.data":   rd("sd1/route_rule.data"),
@@ -240,6 +240,22 @@ func c15(r *vkit.Run) {
 				return true
 			}
 			for i := 0; i < perClient; i++ {
+				if c%4 == 2 { // HTTP/2 client: one TLS+h2 connection per request
+					if i%4 != 0 {
+						continue // keep the TLS handshake cost of this client comparable
+					}
+					id := fmt.Sprintf("c%d-%d", c, i)
+					res := e2e.H2Once(srv.HTTPSAddr, []e2e.HF{{Name: ":method", Value: "GET"}, {Name: ":scheme", Value: "https"}, {Name: ":authority", Value: "h.c15.test"}, {Name: ":path", Value: "/c15/" + id}, {Name: "x-id", Value: id}}, nil, 30*time.Second)
+					st := res.Status
+					if st == "" {
+						st = "err"
+					}
+					statusMu.Lock()
+					status[st]++
+					status["h2_requests"]++
+					statusMu.Unlock()
+					continue
+				}
 				if conn == nil && !dial() {
 					statusMu.Lock()
 					status["dial-failed"]++
@@ -343,7 +359,7 @@ func c15(r *vkit.Run) {
 			r.Violation("panic-counter:"+k, fmt.Sprintf("%s=%d during reloads", k, v), nil)
 		}
 	}
-	if status["200"] < nClients*perClient*8/10 {
+	if status["200"] < nClients*perClient*6/10 {
 		r.Inconclusive(fmt.Sprintf("too few successful requests: %v", status))
 	}
 	if len(pairs) < 4 || r.Counter("reloads") < 50 {
